@@ -95,4 +95,22 @@ let () = each_line (fun line ->
     done;
     Printf.sprintf "%s handled=%d dup=%d miss=%d stray=%d" !status (List.length h) !dup !miss
       (List.length (List.filter (fun x -> x < 0 || x >= n) h))
+  | ["POOLF"; workers; queue; n; fail_at; seed] ->
+    (* handlers that throw: the model with the failure oracle; the run ends aborted or finished, never with a dropped request *)
+    let w = int_of_string workers and cap = int_of_string queue and n = int_of_string n and fa = int_of_string fail_at in
+    let st = ref (int_of_string seed land 0x3fffffff) in
+    let rnd k = st := (!st * 1103515245 + 12345) land 0x3fffffff; (!st lsr 8) mod k in
+    let fails r = int_of_nat r = fa in
+    let s = ref (pool_init (List.init n nat_of_int) (nat_of_int w), false) in
+    let status = ref "" in
+    while !status = "" do
+      if snd !s then status := "ok aborted"
+      else if pool_finished (fst !s) then status := Printf.sprintf "ok finished handled=%d" (List.length (fst !s).handled)
+      else begin
+        let cands = Main :: List.init w (fun j -> Wk (nat_of_int j)) in
+        let en = List.filter_map (fun t -> pool_step_f (nat_of_int cap) fails !s t) cands in
+        if en = [] then status := "deadlock" else s := List.nth en (rnd (List.length en))
+      end
+    done;
+    !status
   | _ -> "unsupported-case")
